@@ -105,6 +105,21 @@ func (e *env) runSnap(o snapOpts) {
 			}
 			chainAns = e.drv.AskAll(cops)
 		}
+		if e.drv != nil && !o.noModel {
+			// the functional model (which the theorems are about) against its line-by-line reference transcription, inside the driver
+			var bops []string
+			for i, c := range cases {
+				if i%4 == 0 {
+					bops = append(bops, c.opWith("snapboth"))
+				}
+			}
+			for i, a := range e.drv.AskAll(bops) {
+				r.stream("model-functional-vs-reference").Ops++
+				if a != "same" {
+					r.diff(Diff{Stream: "model-functional-vs-reference", Op: bops[i], Impl: "(reference transcription)", Model: a})
+				}
+			}
+		}
 		for i, c := range cases {
 			sr := results[i]
 			nt := e.classify(c, sr)
